@@ -104,7 +104,7 @@ func exhaustiveCase(c *core.Ctx, sk []skel, idx, rep, gi int) caseSpec {
 		cs.Masks = append(cs.Masks, randMask(rng))
 	}
 	for _, s := range sk {
-		o := opRec{Kind: s.kind, Pos: s.pos}
+		o := opRec{Op: opNames[s.kind], Kind: s.kind, Pos: s.pos}
 		for k := 0; k < s.n; k++ {
 			o.Hs = append(o.Hs, 1+rng.Intn(3))
 		}
@@ -133,6 +133,7 @@ func randomCase(c *core.Ctx, idx, gi int) caseSpec {
 		default:
 			o.Kind, o.Pos = opAt, -1+rng.Intn(size+1) // -1 .. size-1
 		}
+		o.Op = opNames[o.Kind]
 		n := 1
 		if r := rng.Intn(20); r >= 17 {
 			n = 3
@@ -245,6 +246,34 @@ func (t *trial) run() {
 	t.rig = mon.NewRig(mon.RigOpts{Mode: cs.mode, Queue: cs.queue, Handlers: []netty.Handler{drv}, NoPark: true, NoHooks: true})
 	defer t.rig.Dispose()
 	t.pl = t.rig.PL
+	// head and tail handlers as the two walks see them first (no reliance on ContextAt yet)
+	var headH, tailH netty.Handler
+	if p := t.guard(func() {
+		t.pl.IndexOf(func(h netty.Handler) bool { headH = h; return true })
+		t.pl.LastIndexOf(func(h netty.Handler) bool { tailH = h; return true })
+	}); p != nil || headH == nil || tailH == nil {
+		c.Inconclusive(cs.ID, fmt.Sprintf("cannot identify head/tail of a fresh pipeline (panic=%v)", p))
+		return
+	}
+	t.m = &model{els: []elem{{h: headH, mask: kWrite, pool: -1}, t.pool[0], {h: tailH, mask: kExc, pool: -2}}}
+
+	// Structure after every operation.  Queries and event traversals only read the list, so the
+	// first check and one read event are done before the read loop is known to be parked: a
+	// pipeline whose read loop never reaches the driver is then judged on what it shows, not on a watchdog.
+	check := func(step string) {
+		c.Count("structure_checks", 1)
+		var fs [][2]string
+		if p := t.guard(func() { fs = structure(t.pl, t.m, t.pool) }); p != nil {
+			fs = append(fs, [2]string{"C03:structure-query-panicked", fmt.Sprintf("Size/ContextAt/IndexOf/LastIndexOf panicked: %v", p)})
+		}
+		for _, f := range fs {
+			c.Violation(f[0], cs.ID, fmt.Sprintf("after %s: %s; list should be [%s]", step, f[1], t.m), t.detail(map[string]interface{}{"after": step}))
+		}
+	}
+	check("serve")
+	if t.snapCtxs() {
+		t.fire(entry{"fire-read", kRead, 0}, fwdPlan(4), false)
+	}
 	select {
 	case <-drv.parked:
 	case <-time.After(10 * time.Second):
@@ -252,58 +281,33 @@ func (t *trial) run() {
 		watchdogs++
 		return
 	}
-	head, tail := t.pl.ContextAt(0), t.pl.ContextAt(2)
-	if head == nil || tail == nil || t.pl.Size() != 3 {
-		c.Violation("C03:size-mismatch", cs.ID, fmt.Sprintf("a fresh pipeline with one handler has Size()=%d / nil head or tail context", t.pl.Size()), t.detail(nil))
-		return
-	}
-	t.m = &model{els: []elem{{h: head.Handler(), mask: kWrite, pool: -1}, t.pool[0], {h: tail.Handler(), mask: kExc, pool: -2}}}
-
-	// build, checking the structure after every operation
-	structOK := true
-	check := func(step string) {
-		c.Count("structure_checks", 1)
-		for _, f := range structure(t.pl, t.m, t.pool) {
-			structOK = false
-			c.Violation(f[0], cs.ID, fmt.Sprintf("after %s: %s; list should be [%s]", step, f[1], t.m), t.detail(map[string]interface{}{"after": step}))
-		}
-	}
-	check("serve")
 	for k, o := range cs.Prog {
 		hs := make([]netty.Handler, len(o.Hs))
 		for i, p := range o.Hs {
 			hs[i] = t.pool[p].h
 		}
-		var ret netty.Pipeline
 		if p := t.guard(func() {
 			switch o.Kind {
 			case opFirst:
-				ret = t.pl.AddFirst(hs...)
+				t.pl.AddFirst(hs...)
 			case opLast:
-				ret = t.pl.AddLast(hs...)
+				t.pl.AddLast(hs...)
 			default:
-				ret = t.pl.AddHandler(o.Pos, hs...)
+				t.pl.AddHandler(o.Pos, hs...)
 			}
 		}); p != nil {
 			c.Violation("C03:legal-operation-panicked", cs.ID, fmt.Sprintf("operation #%d %s on [%s] panicked: %v", k, o, t.m, p), t.detail(nil))
 			return
 		}
-		_ = ret
 		t.m.apply(o, t.pool)
 		c.Count("operations", 1)
 		check(fmt.Sprintf("operation #%d %s", k, o))
 	}
 	c.Count("pipelines", 1)
 	c.Max("max_positions", int64(len(t.m.els)))
-	for i := range t.m.els {
-		t.ctxs = append(t.ctxs, t.pl.ContextAt(i))
+	if !t.snapCtxs() { // already reported by the structure check; routing cannot be addressed by position
+		return
 	}
-	for _, x := range t.ctxs {
-		if x == nil { // already reported by the structure check; routing cannot be addressed by position
-			return
-		}
-	}
-	_ = structOK
 
 	t.routeAll()
 	if t.maxChain >= 2 && len(t.m.els) >= 5 {
@@ -317,6 +321,26 @@ func (t *trial) run() {
 	if c.WantSample() && len(cs.Prog) >= 3 {
 		c.Sample(map[string]interface{}{"case": cs, "final_list": t.m.String()})
 	}
+}
+
+// snapCtxs records ContextAt(i) for every model position; false if one is missing.
+func (t *trial) snapCtxs() (ok bool) {
+	t.ctxs = t.ctxs[:0]
+	ok = true
+	if p := t.guard(func() {
+		for i := range t.m.els {
+			x := t.pl.ContextAt(i)
+			if x == nil {
+				ok = false
+				return
+			}
+			x.Handler() // a typed nil panics here
+			t.ctxs = append(t.ctxs, x)
+		}
+	}); p != nil {
+		ok = false
+	}
+	return ok
 }
 
 func (t *trial) guard(fn func()) (p interface{}) {
